@@ -29,6 +29,9 @@ Third round: the writers of the two control files (set_conflicts, set_merge_modi
 the file to the transport only through put_file / put_bytes (whole-file replacement when the content is complete) — no
 open_write_stream / append_* / *_non_atomic; add_conflicts uses Conflict.sort_key only inside `key=` of sorted()/sort()
 (no dictionary keyed by a projection of a conflict).
+Fourth round: selection-by-path-containment — both select_conflicts implementations decide the recursive selection through
+osutils.is_inside_any/is_inside and contain no textual prefix test. merge-hash-keyed-by-target-path — in transform._alter_files the hash
+taken with target_tree.get_file_sha1(P) is stored under merge_modified[P].
 Does not decide: rio's escaping of arbitrary unicode (bzrformats).
 """
 
@@ -273,8 +276,32 @@ def run(ctx):
     stray = [n for n in proj if id(n) not in as_key and not any(isinstance(s_, ast.Assign) and norm(s_.targets[0]) in aliases and any(x is n for x in ast.walk(s_.value)) for s_ in walk_own(fa))]
     keyed = [n for n in ast.walk(fa) if isinstance(n, ast.DictComp) and not isinstance(n.key, ast.Name)]
     ctx.check("add-merges-by-equality", wa, not stray and not keyed and any(call_attr(c) == "set_conflicts" for c in calls_in(fa)), "add_conflicts uses Conflict.sort_key only to order the list it stores; stored and new conflicts are merged by their own equality", construct="; ".join(f"L{n.lineno}:{norm(n)[:50]}" for n in stray + keyed), message="add_conflicts indexes the stored and the new conflicts by a projection (sort_key = path and type): two conflicts of the same kind on the same path that differ in file id, conflict_path or action collapse into one — a stored conflict is dropped and can never be listed or resolved")
+    # ---- fourth round: recursive selection is by path containment, in both implementations ------------------------------
+    n_selc = 0
+    for rel_, q_ in (("breezy/conflicts.py", "ConflictList.select_conflicts"), (CF, "ConflictList.select_conflicts")):
+        if not repo.has(rel_, q_):
+            continue
+        fsel = repo.func(rel_, q_)
+        n_selc += 1
+        inside = [c for c in calls_in(fsel) if (call_attr(c) or call_name(c)) in ("is_inside_any", "is_inside")]
+        textual = [c for c in calls_in(fsel) if call_attr(c) in ("startswith", "endswith", "find", "index", "removeprefix") or (call_attr(c) == "match" and "re" in (call_recv(c) or ""))]
+        ctx.check("selection-by-path-containment", f"{rel_}:{q_}", bool(inside) and not textual, "the recursive selection asks osutils.is_inside_any()/is_inside() (component-wise containment, trailing slashes and '' handled) and does no textual prefix test of its own", construct="; ".join(norm(c)[:60] for c in textual), message=f"{q_} decides the recursive selection with `{norm(textual[0])[:70] if textual else 'something other than is_inside_any'}`: a textual prefix test and osutils.is_inside() disagree on a directory given with a trailing slash ('dir/'), on '' and on siblings sharing a name prefix — resolve/revert on such a selection removes other conflicts than the selected ones, or none")
+    ctx.require(n_selc == 2, f"select_conflicts implementations found: {n_selc} (expected the generic one and the bzr one)")
+    # ---- fourth round: the merge hash recorded by a revert is keyed by the path the file has after the revert ------------
+    TR = "breezy/transform.py"
+    faf = repo.func(TR, "_alter_files")
+    sha_assign = [a for a in ast.walk(faf) if isinstance(a, ast.Assign) and len(a.targets) == 1 and isinstance(a.targets[0], ast.Name) and isinstance(a.value, ast.Call) and call_attr(a.value) == "get_file_sha1" and "target" in (call_recv(a.value) or "") and a.value.args]
+    ctx.require(len(sha_assign) == 1, f"{TR}:_alter_files: `<sha> = target_tree.get_file_sha1(<path>)` not found")
+    shav, pathv = sha_assign[0].targets[0].id, norm(sha_assign[0].value.args[0])
+    stores_mm = [a for a in ast.walk(faf) if isinstance(a, ast.Assign) and len(a.targets) == 1 and isinstance(a.targets[0], ast.Subscript) and norm(a.targets[0].value) == "merge_modified" and norm(a.value) == shav]
+    ctx.require(len(stores_mm) >= 1, f"{TR}:_alter_files: no `merge_modified[..] = {shav}` store found")
+    for a in stores_mm:
+        ctx.check("merge-hash-keyed-by-target-path", f"{TR}:_alter_files", norm(a.targets[0].slice) == pathv, f"the hash of target_tree's text at `{pathv}` is recorded under that same path (set_merge_modified runs after the transform: only post-revert paths resolve to a file id)", construct=norm(a), message=f"`{norm(a)}` records the hash taken at `{pathv}` under another path: set_merge_modified runs after tt.apply(), an entry keyed by the pre-revert path maps to no file and is dropped — after reverting a renamed and modified file to a non-basis tree the stored merge hashes do not read back")
+
 
 MUTANTS = [
+    Mutant("recursive selection by textual prefix", "breezy/conflicts.py", "            if recurse and osutils.is_inside_any(path_set, conflict.path):\n", "            if recurse and any(conflict.path.startswith(p + \"/\") for p in path_set):\n", expect="selection-by-path-containment"),
+    Mutant("merge hash stored under the basis path", "breezy/transform.py", "                    merge_modified[target_path] = new_sha1\n", "                    merge_modified[basis_path or target_path] = new_sha1\n", expect="merge-hash-keyed-by-target-path"),
     Mutant("control file appended instead of replaced", WT, "        self._transport.put_file(\n            filename, my_file, mode=self.controldir._get_file_mode()\n        )\n", "        self._transport.append_file(\n            filename, my_file, mode=self.controldir._get_file_mode()\n        )\n", expect="store-replaces-whole-file"),
     Mutant("add_conflicts reads and writes without the tree lock", WT, "        with self.lock_tree_write():\n            conflict_set = set(self.conflicts())\n            conflict_set.update(set(new_conflicts))\n            self.set_conflicts(\n                sorted(conflict_set, key=_mod_bzr_conflicts.Conflict.sort_key)\n            )\n", "        conflict_set = set(self.conflicts())\n        conflict_set.update(set(new_conflicts))\n        self.set_conflicts(\n            sorted(conflict_set, key=_mod_bzr_conflicts.Conflict.sort_key)\n        )\n", expect="rmw-under-one-lock"),
     Mutant("empty selection means all", "breezy/conflicts.py", "        if paths is None:\n            new_conflicts = []", "        if not paths:\n            new_conflicts = []", expect="selection-respected"),
